@@ -158,6 +158,28 @@ var variantName = []string{"normal", "foreign-sig", "tampered-payload", "two-sig
 
 func genTRCs(r *vlib.Rand) []planTRC {
 	var ps []planTRC
+	if r.Chance(22) {
+		// grace scenario: the latest TRC changed the root, the predecessor still holds the old one
+		b := uint64(r.Range(1, 2))
+		s := b + uint64(r.Range(1, 3))
+		latest := planTRC{base: b, serial: s, nb: secNeg[r.Intn(len(secNeg))], na: secPos[r.Intn(len(secPos))], roots: 1}
+		for {
+			g := []int{10, 60, 3600, 7200, 20000, 3, 1}[r.Intn(7)]
+			if okSec(latest.nb + g) {
+				latest.gr = g
+				break
+			}
+		}
+		pred := planTRC{base: b, serial: s - 1, nb: pickSec(r, 95), na: pickSec(r, 15), roots: 0}
+		if s-1 != b {
+			pred.gr = 0
+		}
+		ps = []planTRC{pred, latest}
+		if r.Bool() {
+			ps = []planTRC{latest, pred}
+		}
+		return ps
+	}
 	n := r.Range(1, 2)
 	if r.Chance(4) {
 		n = 0
